@@ -47,12 +47,13 @@ def ulps(a, b):
 
 
 def tables():
-    common.use_repo()
-    import athlib
+    """The three published tables, read from their data files - not through the graders, whose table handling is under
+    test (and without touching the graders' state: the parent process stays pristine for its children)."""
     out = {}
-    for name, ag in (('2015', athlib.ag2015), ('2023', athlib.ag2023)):
-        out[name] = ag.get_data()
-    out['athlon'] = athlib.aag.get_data()
+    d = os.path.join(common.REPO, 'athlib', 'wma')
+    for name, fn in (('2015', 'wma-data-2015.json'), ('2023', 'wma-data-2023.json'), ('athlon', 'wma-athlons-data.json')):
+        with open(os.path.join(d, fn)) as f:
+            out[name] = json.load(f)
     return out
 
 
@@ -75,6 +76,11 @@ def _ag_job(job):
     lastage = job[5] if len(job) > 5 else None
     out = []
     flast = None
+    if tbl != 'athlon':
+        # interference: the other table year is asked first (result discarded) - what a grader answers must not depend
+        # on which table another grader has used before
+        call(athlib.wma_age_factor, g, 50, ev, year=2023 if int(tbl) == 2015 else 2015)
+        call(athlib.wma_world_best, g, ev, year=2023 if int(tbl) == 2015 else 2015)
     if lastage is not None:
         flast = L(call(athlib.wma_athlon_age_factor, g, lastage, ev) if tbl == 'athlon'
                   else call(athlib.wma_age_factor, g, lastage, ev, year=int(tbl)))
